@@ -29,6 +29,8 @@ func runnerFor(kind string, r *rng.R) (field string, run func([]byte)) {
 		}
 	case strings.HasPrefix(kind, "through-"):
 		return "src", func(b []byte) { throughMarshal(b, false) }
+	case strings.HasPrefix(kind, "history-"):
+		return "", nil // depends on what ran before (pools); the recorded prelude + input is the witness
 	case kind == "hang" || strings.HasSuffix(kind, "-panic") || strings.HasSuffix(kind, "-overrun"):
 		return "", nil // re-running these is not safe / needs the exact buffer geometry
 	}
